@@ -94,4 +94,23 @@ META["C10"] = dict(
         "and application bytes at the target exactly once after the connect.",
    technique="TLA+ spec (Open.tla) + TLC exhaustive MC + TLC-enumerated answer orders replayed + end-to-end loopback rig + TLC trace validation",
    design_ref="DESIGN.md 3/C10")
+META["C12"] = dict(
+   text="Pool.tla is a discrete-time model of the pool (sessions with sequence number, closed flag, stream count, map membership "
+        "and idle time; requests, stream completions, external deaths, reaper ticks; CI/IT/MI chosen in Init, MI=0 included). TLC "
+        "checks exhaustively (3 sessions, 4 requests, 6/7 time units, 4M states) that the 'returning' design never reaps a session "
+        "that carries a stream, always reuses and stays bounded, and that the pinned design violates both C12 and C13. Recorded "
+        "histories of a real SessionPool (virtual time, real Sessions) are validated by Trace_Pool.tla, which owns the map and "
+        "judges every reaper tick by the property's clauses (only stream-less, only expired, never below the minimum, no more "
+        "than MI expired survivors) and every get (never a closed session). The genuine defect F14 is accepted only as the named "
+        "deviation ReaperClosesSessionInUse, after every other clause of the tick has been checked.",
+   technique="TLA+ spec (Pool.tla, discrete time) + TLC exhaustive MC of two designs + recorded pool histories validated by TLC",
+   design_ref="DESIGN.md 3/C12")
+META["C13"] = dict(
+   text="Same specification and runs as C12. Verdict here: ReuseWhenIdleHealthyExists and SessionsBounded, checked by TLC on the "
+        "model (hold for the 'returning' design, violated by the pinned one) and on recorded executions of the real Client against "
+        "the real server (session identity of every served request, open sessions after a quiet period). The genuine defect F15 "
+        "(sessions are never returned to the pool) is accepted only as the named deviation SessionNeverReturnedToPool; a request "
+        "served on a closed session is always a violation.",
+   technique="TLA+ spec (Pool.tla) + TLC exhaustive MC + recorded client histories validated by TLC",
+   design_ref="DESIGN.md 3/C13")
 NOT_YET = "check not built yet in this round (planned: DESIGN.md section 3); not claimed"
